@@ -31,6 +31,7 @@ pub fn tables() -> Vec<(&'static str, vsrc::NativeFn)> {
     t.extend(c06::table());
     t.extend(c06p::table());
     t.extend(c07::table());
+    t.extend(c07::enums::table());
     t.extend(c08::table());
     t.extend(c09::table());
     t.extend(c10::table());
